@@ -14,6 +14,9 @@
 #include "nmtools/array/view/expand_dims.hpp"
 #include "nmtools/array/view/ufuncs/add.hpp"
 #include "nmtools/array/view/sum.hpp"
+#include "nmtools/array/view/take.hpp"
+#include "nmtools/array/view/concatenate.hpp"
+#include "nmtools/array/view/atleast_nd.hpp"
 
 #ifndef MAXD
 #define MAXD 2
@@ -58,9 +61,18 @@ template <int Level, bool R, class V, class K> static vj::value sstep(const step
     if constexpr (on<Level, R>(2)) if (s.op == "flip") { if (s.a == 0) return cont(view::flip(v, 0_ct)); return cont(view::flip(v, nm::None)); }
     if constexpr (on<Level, R>(3)) if (s.op == "sum") { if (s.a == 0) return cont(view::sum(v, 0_ct)); if (s.a == 1) return cont(view::sum(v, 0_ct, nm::None, nm::None, nm::True)); return cont(view::sum(v, (int)-1)); }
     if constexpr (on<Level, R>(4)) if (s.op == "add_self") return cont(view::add(v, v));
-    if constexpr (on<Level, R>(5)) if (s.op == "tile") { if (s.a == 0) return cont(view::tile(v, nmtools_tuple{2_ct})); return cont(view::tile(v, std::vector<size_t>{2})); }
+    if constexpr (on<Level, R>(5)) if (s.op == "tile") {
+        if (s.a == 0) return cont(view::tile(v, nmtools_tuple{2_ct})); if (s.a == 1) return cont(view::tile(v, std::vector<size_t>{2}));
+        if constexpr (Level == 0) { if (s.a == 2) return cont(view::tile(v, std::array<size_t, 4>{2, 1, 1, 2})); return cont(view::tile(v, nmtools_tuple{2_ct, 1_ct, 1_ct, 2_ct})); }
+        else return crash_res("driver:unsupported"); }
     if constexpr (on<Level, R>(6)) if (s.op == "expand_dims") return cont(view::expand_dims(v, 0_ct));
     if constexpr (on<Level, R>(7)) if (s.op == "reshape") { return cont(view::reshape(v, std::vector<int>{-1})); }
+    if constexpr (on<Level, R>(8)) if (s.op == "take") return cont(view::take(v, std::vector<int>{0, 0}, (int)-1));
+    if constexpr (on<Level, R>(9)) if (s.op == "concat_self") { if (s.a == 0) return cont(view::concatenate(v, v, (int)0)); return cont(view::concatenate(v, v, 0_ct)); }
+    if constexpr (on<Level, R>(10)) if (s.op == "atleast_nd") {
+        // (a run-time nd on a 1-d constant-shape view does not compile - a loud limitation: the run-time variant is compiled for leaves only)
+        if (s.a == 0) { if constexpr (Level == 0) return cont(view::atleast_nd(v, (size_t)3)); else return crash_res("driver:unsupported"); }
+        return cont(view::atleast_nd(v, 3_ct)); }
     return crash_res("driver:operation not compiled at this position: " + s.op);
 }
 template <int Level, bool R, class V, class K> static vj::value schain(const std::vector<step_t>& st, size_t i, const V& v, K&& k) {
